@@ -143,3 +143,13 @@ func init() {
 		Stages: []Stage{c13("loc", [2]int{4, 8}), c13("sys", [2]int{2, 4}), c13("http", [2]int{2, 4}), c13("sheens", [2]int{1, 1})},
 	}
 }
+
+func init() {
+	properties["C12"] = Property{
+		Level: "exploration",
+		Rule:  "one case = one recorded history: 2-6 clients x 4-8 operations on 3 shared ids of one location (families: facts; rules+events; rules+enable+events; facts and rules on the same ids), unique written values, seeded delays at the verifhook points in two thirds of the histories, final reads of every id from the live and from a reloaded location; checked by porcupine against the sequential model (60 s timeout => inconclusive) and run under the race detector; non-trivial = >=2 clients overlapped in time and >=1 read observed a value written by another client; distinct by (seed, history index)",
+		Floor: [2]int{50, 500},
+		Assumptions: []string{"the sequential model in mon/c12 (a map id -> fact/rule plus disabled flags) is the specification", "a strict-model failure that the relaxed model pe-two-instant accepts is attributed to the open finding c12.pe-two-instant", "schedules are sampled (stress + injected delays), not enumerated"},
+		Stages: []Stage{{Name: "histories", Pkg: "./mon/c12", Race: true, Procs: 8, Batches: [2]int{4, 8}, TimeoutS: [2]int{1200, 3600}, HangIsViolation: true}},
+	}
+}
